@@ -199,3 +199,17 @@ check("C09", "model_checking",
       "sampled populations of the model's vectors with every random.choice outcome forced and judged by PopAcceptOK.",
       "trusted: TLC; design identity = exact vector; hash-based deterministic objective; rank abstraction over the whole run",
       "TLC exhaustive generation model + TLC trace validation of whole real runs + forced-choice acceptance table", "DESIGN.md 5/C09")
+
+check("C08", "exploration",
+      "Variation.tla abstracts coordinates to classes relative to their bounds (Below / AtLb / In / AtUb / Above, NaN / Complex / NonReal) and "
+      "models the inductive skeleton of every population algorithm (Generate, Vary = arbitrary real raw value then clip, SwarmMove, Resample "
+      "after a failure, Evaluate); TLC checks that every evaluated coordinate is in the box and that the named deviation 'unclipped' (an "
+      "operator that forgets to clip, like SimpleMutator) violates it. On the code side the abstract case space operator x parent position "
+      "class x parent relation (coincident / 1 ulp / 1e-12 / far) x 9 box classes x probability x distribution index x iteration is sampled "
+      "(quick 5000, thorough 120000) with scripted boundary draws for random.random / uniform; 8 generators on mixed boxes with and without "
+      "declared precision; every vector handed to the objective in NSGA-II / eps-MOEA / OMOPSO / SMPSO / PSOGA runs; VariationTrace (TLC) "
+      "judges class membership, dimension and realness of every event. The box arithmetic itself is floating point and cannot be modelled "
+      "in TLA+: this is a contract monitor on top of a small inductive model, hence level exploration.",
+      "trusted: TLC; the classification function (tolerance 0 for operators; 1e-12 or half the declared precision plus 4 ulp for generated and "
+      "evaluated designs); scripted random draws; boxes up to 1e12",
+      "TLC class-abstraction model + TLC validation of class-abstracted operator / generator / run observations", "DESIGN.md 5/C08")
